@@ -3,12 +3,13 @@ CONSTANTS
   Rounds = 2
   FreshQueuePerSolve = TRUE
   N = 3
-  CacheModelByWinner = FALSE
-  ExitOnException = TRUE
+  CacheModelByWinner = TRUE
+  ExitOnException = FALSE
   DetectAllFailed = TRUE
 INVARIANT Agreement
 INVARIANT RaisesOnlyIfNobodyAnswered
 INVARIANT NoLoserConsumesCtrl
 INVARIANT ModelIsCurrent
 PROPERTY SolveReturns
+PROPERTY AnswerIfSomeoneAnswers
 CHECK_DEADLOCK FALSE
